@@ -33,7 +33,17 @@ RULE = (
     "that condition's verdict on a remaining alternative (guaranteed by construction), each condition set also run in another written "
     "order - every condition is judged on the criterion as given; (d) FilterNonDominated, both strict settings, on ALL-INTEGER (int64) "
     "matrices with criteria whose values are whole numbers beyond 2^53 that differ by 1-3 units (2^53+1 vs 2^53, also 2^54.., 2^62.., "
-    "negative) with the same forced pairs as in (b), compared with exact integer arithmetic. "
+    "negative) with the same forced pairs as in (b), compared with exact integer arithmetic; "
+    "(e) by-criteria filters of every class (three arithmetic ones, In, NotIn, function-based per case; ignore_missing_criteria "
+    "alternating) on matrices whose CRITERION LABELS carry leading / trailing blanks or tabs ('ROE ', ' CAP') or differ from another "
+    "criterion of the same matrix only by blanks or by case ('ROE ' next to 'ROE', 'Cap' next to 'CAP'); the conditions name such "
+    "criteria exactly, and also near-namesakes that are NOT in the matrix (the bare label when only the padded one is a criterion, "
+    "another case) - a condition applies to exactly the criterion it names, any other spelling is an absent criterion; "
+    "(f) FilterNonDominated, both strict settings on ONE decision-matrix object, after a HISTORY of read-only queries on that object: "
+    "dm.dominance.has_loops(strict=), dominated(strict=) whose returned Series the caller sorts / overwrites / flips in place, bt(), "
+    "eq(), dominance(strict=), compare(), dominators_of(), an earlier FilterNonDominated - on matrices (rows shuffled) where a "
+    "dominated alternative is listed BEFORE a non-dominated one; every run has has_loops or an in-place edit of dominated()'s answer "
+    "with the run's own strict setting; the survivors are still exactly the non-dominated alternatives and the matrix is unchanged. "
     "Thorough tier adds the exhaustive enumeration: "
     "every matrix with <= 3 alternatives x <= 2 criteria over {0,1,2}, every non-empty condition set over {C0, C1, absent ZZ} "
     "with thresholds in {1,2} in every key order, both ignore settings, all nine by-criteria classes; and every such matrix "
@@ -478,6 +488,151 @@ def _colrel_case(rng):
     return {"dm": dm, "runs": runs}
 
 
+# ---- criterion labels with blanks around them, or differing only by blanks / case from another criterion of the matrix
+
+
+def _label_variants(b):
+    """spellings that differ from the label b only by surrounding blanks or by case (b itself first), without repeats"""
+    vs = [b, b + " ", " " + b, " " + b + " ", b + "  ", "\t" + b, b + "\t", b.lower(), b.upper(), b.capitalize(), b.swapcase(),
+          b.lower() + " ", " " + b.upper(), "  " + b.swapcase()]
+    out = []
+    for v in vs:
+        if v not in out:
+            out.append(v)
+    return out
+
+
+def _cond_value(rng, cls, col):
+    if cls in ARITH:
+        return _threshold(rng, col)
+    if cls in SETS:
+        return [_threshold(rng, col) for _ in range(rng.randint(1, 4))]
+    return _pred(rng, col)
+
+
+def _label_case(rng, k):
+    dm = G.dm_case(rng, family=rng.choice(["dyadic", "dyadic", "float"]), positive=rng.random() < 0.6, ties=rng.choice([0.2, 0.5]),
+                   dups=0.1, max_m=10, max_n=6, min_m=3, min_n=2)
+    n = len(dm["criteria"])
+    bases = rng.sample(G.LABEL_POOL_CRIT, n)
+    crits, special, near = [], [], []
+    for g, b in enumerate(bases):
+        room = n - len(crits)
+        if room == 0:
+            break
+        vs = _label_variants(b)
+        blank = [v for v in vs if v != v.strip()]
+        r = rng.random()
+        if g > 0 and r < 0.25:  # an ordinary criterion (its other spellings are absent criteria)
+            pick = [b]
+        elif r < 0.55 or room == 1:  # a label with blanks around it; the bare label is NOT a criterion
+            pick = [rng.choice(blank)]
+        elif r < 0.85:  # the bare label next to another spelling of it
+            pick = [b, rng.choice(vs[1:])]
+        else:
+            pick = rng.sample(vs, min(room, rng.choice([2, 3])))
+        crits += pick
+        if not (len(pick) == 1 and pick[0] == b):
+            special += pick
+        near += [v for v in vs if v not in pick]
+    rng.shuffle(crits)
+    assert len(crits) == n and len(set(crits)) == n
+    near = [v for v in near if v not in crits]
+    dm["criteria"] = crits
+    dm["family"] = "labels:blanks/case"
+    # the criteria named by the conditions: at least one special one, exactly spelled; some near-namesakes that are absent
+    keys = rng.sample(special, min(len(special), rng.choice([1, 1, 2, 3])))
+    keys += rng.sample([c for c in crits if c not in keys], min(n - len(keys), rng.choice([0, 0, 1])))
+    keys += rng.sample(near, rng.choice([0, 0, 1, 1, 2]))
+    rng.shuffle(keys)
+    runs = []
+    for idx, cls in enumerate(rng.sample(ARITH, 3) + ["In", "NotIn", "Fn"]):
+        conds = []
+        for c in keys:
+            col = [row[crits.index(c)] for row in dm["matrix"]] if c in crits else [rng.randint(0, 40) / 8]
+            conds.append([c, _cond_value(rng, cls, col)])
+        if rng.random() < 0.3:
+            rng.shuffle(conds)
+        runs.append({"cls": cls, "conds": conds, "ignore": (k + idx) % 2 == 0})
+    return {"dm": dm, "runs": runs}
+
+
+# ---- FilterNonDominated after a history of read-only queries on the same decision-matrix object
+
+SERIES_EDITS = ["sort_values", "sort_values_desc", "sort_index", "sort_index_desc", "all_false", "all_true", "flip", "reverse",
+                "toggle_first", "buffer_flip", "drop_first"]
+FRAME_EDITS = ["none", "none", "fill", "sort_index_desc", "drop_first"]
+
+
+def _history_dm(rng):
+    """a matrix with dominated (and strictly dominated) alternatives, rows shuffled so that a dominated alternative is listed before
+    a non-dominated one"""
+    best = None
+    for attempt in range(40):
+        m, n = rng.randint(3, 9), rng.randint(1, 4)
+        fam = rng.choice(["dyadic", "dyadic", "float"])
+        positive = rng.random() < 0.6
+        objs = G.objectives(rng, n)
+        rows = G.matrix(rng, m, n, fam, positive, ties=rng.choice([0.1, 0.3, 0.5]), dups=0.1, dominated=rng.choice([0.3, 0.6]), objs=objs)
+        for i in range(1, m):
+            if rng.random() < 0.3:  # worse than an earlier row on EVERY criterion: strictly dominated
+                src = rows[rng.randrange(i)]
+                rows[i] = [x - (rng.randint(1, 8) / 8 if fam == "dyadic" else abs(x) * rng.uniform(0.01, 0.5) + 2.0 ** -10) * o
+                           for x, o in zip(src, objs)]
+        rng.shuffle(rows)
+        int_matrix = False
+        if fam == "dyadic" and rng.random() < 0.25:
+            rows = [[float(int(x * 8)) for x in row] for row in rows]
+            int_matrix = True
+        dm = {"matrix": rows, "int_matrix": int_matrix, "objectives": objs, "weights": G.weights(rng, n, "dyadic"),
+              "alternatives": G.labels(rng, G.LABEL_POOL_ALT, m), "criteria": G.labels(rng, G.LABEL_POOL_CRIT, n),
+              "family": "history:" + fam}
+        ok = []
+        for s in (False, True):
+            keep = set(oracle(dm, {"cls": "NonDominated", "strict": s}))
+            gone = [i for i in range(m) if i not in keep]
+            ok.append(bool(gone) and min(gone) < max(keep))
+        if all(ok) or (ok[0] and attempt >= 25):
+            return dm
+        if ok[0] and best is None:
+            best = dm
+    return best or dm
+
+
+def _history_step(rng, m, s):
+    r = rng.random()
+    s2 = s if rng.random() < 0.7 else not s
+    if r < 0.15:
+        return ["has_loops", s2]
+    if r < 0.35:
+        return ["dominated", s2, rng.choice(["none"] + SERIES_EDITS)]
+    if r < 0.45:
+        return ["bt", rng.choice(FRAME_EDITS)]
+    if r < 0.55:
+        return ["eq", rng.choice(FRAME_EDITS)]
+    if r < 0.7:
+        return ["dominance", s2, rng.choice(FRAME_EDITS)]
+    if r < 0.82:
+        i, k = rng.sample(range(m), 2)
+        return ["compare", i, k]
+    if r < 0.92:
+        return ["dominators_of", rng.randrange(m), s2]
+    return ["filter", s2]
+
+
+def _history_case(rng, k):
+    dm = _history_dm(rng)
+    m = len(dm["matrix"])
+    runs = []
+    for s in ([False, True] if k % 2 == 0 else [True, False]):
+        steps = [_history_step(rng, m, s) for _ in range(rng.randint(0, 3))]
+        # the run's own strict setting: the loop query, or dominated() whose answer the caller then edits in place
+        must = ["has_loops", s] if rng.random() < 0.5 else ["dominated", s, rng.choice(SERIES_EDITS)]
+        steps.insert(rng.randint(0, len(steps)), must)
+        runs.append({"cls": "NonDominated", "strict": s, "pre": steps})
+    return {"dm": dm, "runs": runs}
+
+
 def _malformed_cases(rng):
     dm = G.dm_case(rng, family="dyadic", max_m=4, max_n=3)
     c0 = dm["criteria"][0]
@@ -554,6 +709,10 @@ def gen(ctx):
         cases.append(_bigint_nd_case(rng))
     for _ in range(ctx.n(120, 600)):
         cases.append(_int_set_case(rng))
+    for k in range(ctx.n(220, 1200)):
+        cases.append(_label_case(rng, k))
+    for k in range(ctx.n(220, 1200)):
+        cases.append(_history_case(rng, k))
     if ctx.thorough:
         cases.extend(_exhaustive())
     return cases
@@ -562,7 +721,8 @@ def gen(ctx):
 def search_gen(ctx):
     rng = ctx.rng
     return [_random_case(rng) for _ in range(3000)] + [_long_set_case(rng) for _ in range(600)] + [_near_tie_case(rng) for _ in range(600)] + \
-        [_colrel_case(rng) for _ in range(600)] + [_bigint_nd_case(rng) for _ in range(300)]
+        [_colrel_case(rng) for _ in range(600)] + [_bigint_nd_case(rng) for _ in range(300)] + \
+        [_label_case(rng, k) for k in range(400)] + [_history_case(rng, k) for k in range(400)]
 
 
 # --------------------------------------------------------------------------- implementation side
@@ -632,6 +792,81 @@ def _dm_obs(dm):
     }
 
 
+def _edit_series(a, how):
+    """what a caller may do, in place, to the Series an accessor handed out (it is the caller's own object)"""
+    if how == "sort_values":
+        a.sort_values(inplace=True)
+    elif how == "sort_values_desc":
+        a.sort_values(ascending=False, inplace=True)
+    elif how == "sort_index":
+        a.sort_index(inplace=True)
+    elif how == "sort_index_desc":
+        a.sort_index(ascending=False, inplace=True)
+    elif how == "all_false":
+        a[:] = False
+    elif how == "all_true":
+        a[:] = True
+    elif how == "flip":
+        a[:] = ~a.to_numpy()
+    elif how == "reverse":
+        a[:] = a.to_numpy()[::-1].copy()
+    elif how == "toggle_first":
+        a.iloc[0] = not bool(a.iloc[0])
+    elif how == "buffer_flip":
+        v = a.values
+        v[:] = ~v
+    elif how == "drop_first":
+        a.drop(a.index[0], inplace=True)
+
+
+def _edit_frame(df, how):
+    if how == "fill":
+        df.iloc[:, :] = df.to_numpy()[::-1].copy()  # rows overwritten with the rows in reverse order (same types)
+    elif how == "sort_index_desc":
+        df.sort_index(ascending=False, inplace=True)
+    elif how == "drop_first":
+        df.drop(index=df.index[0], inplace=True)
+
+
+def _do_step(dm, step):
+    """one read-only query on the decision matrix (and, possibly, a caller-side edit of the ANSWER); returns a status string"""
+    from skcriteria.preprocessing import filters as F
+
+    op = step[0]
+    alts = list(dm.alternatives)
+    try:
+        if op == "has_loops":
+            dm.dominance.has_loops(strict=step[1])
+            return "ok"
+        if op == "dominated":
+            ans, edit, how = dm.dominance.dominated(strict=step[1]), _edit_series, step[2]
+        elif op == "bt":
+            ans, edit, how = dm.dominance.bt(), _edit_frame, step[1]
+        elif op == "eq":
+            ans, edit, how = dm.dominance.eq(), _edit_frame, step[1]
+        elif op == "dominance":
+            ans, edit, how = dm.dominance.dominance(strict=step[1]), _edit_frame, step[2]
+        elif op == "compare":
+            ans, edit, how = dm.dominance.compare(alts[step[1]], alts[step[2]]), _edit_frame, "fill"
+        elif op == "dominators_of":
+            ans = dm.dominance.dominators_of(alts[step[1]], strict=step[2])
+            if len(ans):
+                ans[:] = ans[::-1].copy()
+            return "ok"
+        elif op == "filter":
+            F.FilterNonDominated(strict=step[1]).transform(dm)
+            return "ok"
+        else:
+            raise KeyError(op)
+    except Exception as e:  # a query that raises is not this property's business: recorded, the run goes on
+        return "query-raised:" + G.err_name(e)
+    try:
+        edit(ans, how)
+    except Exception as e:  # the caller's edit was refused (read-only buffer ...): nothing happened
+        return "edit-refused:" + G.err_name(e)
+    return "ok"
+
+
 def observe(case):
     import warnings
 
@@ -645,12 +880,13 @@ def observe(case):
             except Exception as e:
                 out.append({"err": G.err_name(e), "stage": "init", "msg": str(e)[:120]})
                 continue
+            pre = [_do_step(dm, st) for st in run.get("pre", [])]  # the history: queries made on this very object beforehand
             try:
                 res = flt.transform(dm)
             except Exception as e:
                 out.append({"err": G.err_name(e), "stage": "transform", "msg": str(e)[:120]})
                 continue
-            out.append(_dm_obs(res))
+            out.append(dict(_dm_obs(res), pre=pre) if pre else _dm_obs(res))
         return {"runs": out, "input_after": _dm_obs(dm)}
 
 
@@ -779,6 +1015,8 @@ def judge(case, obs, replies):
             k += 1
 
     def single(i):
+        if any(r.get("pre") for r in case["runs"][: i + 1]):
+            return {"dm": dm, "runs": case["runs"][: i + 1]}  # the history includes the earlier runs on the same object
         return {"dm": dm, "runs": [case["runs"][i]]}
 
     for i, (run, o) in enumerate(zip(case["runs"], obs["runs"])):
@@ -788,6 +1026,8 @@ def judge(case, obs, replies):
                                  ", ignore_missing_criteria=True" if run["ignore"] else "")
         else:
             label += "(strict=%s)" % run["strict"]
+            if run.get("pre"):
+                label += " after " + ", ".join("%s(%s)" % (st[0], ", ".join(map(str, st[1:]))) for st in run["pre"])
 
         def prop(what, expected=None, observed=None):
             out.append({"kind": "property", "what": f"{label}: {what}", "expected": expected, "observed": observed, "case": single(i)})
@@ -853,7 +1093,7 @@ def judge(case, obs, replies):
 def nontrivial(case, obs):
     m = len(case["dm"]["alternatives"])
     for run, o in zip(case["runs"], obs["runs"]):
-        if "err" in o or 0 < len(o["alts"]) < m or len(run.get("conds", [])) >= 2:
+        if "err" in o or 0 < len(o["alts"]) < m or len(run.get("conds", [])) >= 2 or run.get("pre"):
             return True
     return False
 
@@ -875,6 +1115,19 @@ def tags(case, obs):
             t.append("some-survive")
         if run["cls"] == "NonDominated":
             t.append("strict" if run["strict"] else "non-strict")
+            if run.get("pre"):
+                t.append("history:queries-before-the-filter")
+                for st, status in zip(run["pre"], o.get("pre", [])):
+                    if status != "ok":
+                        t.append("history:" + st[0] + ":" + status)
+                    if st[0] == "has_loops" and st[1] == run["strict"]:
+                        t.append("history:has_loops(same strict)")
+                    if st[0] == "dominated" and st[1] == run["strict"] and st[2] != "none":
+                        t.append("history:dominated(same strict) answer edited in place")
+                keep = set(oracle(dm, run))
+                gone = [i for i in range(len(dm["matrix"])) if i not in keep]
+                if gone and keep and min(gone) < max(keep):
+                    t.append("history:a-dominated-alternative-listed-before-a-non-dominated-one")
             cols = list(zip(*dm["matrix"]))
             if any(x != y and abs(x - y) <= 1e-5 * max(abs(x), abs(y)) for col in cols for x in set(col) for y in set(col)):
                 t.append("nd:two-alternatives-differ-by-a-tiny-amount")
@@ -901,6 +1154,14 @@ def tags(case, obs):
             if _fn_survivors(dm, run["conds"]) != _fn_survivors(dm, run["conds"], on_the_fly=True):
                 t.append("fn:earlier-conditions-reject-alternatives-that-shift-a-later-column-statistic")
         t.append("ignore" if run["ignore"] else "no-ignore")
+        named = [c for c, _ in run["conds"]]
+        if any(c in crits and c != c.strip() for c in named):
+            t.append("label:condition-on-a-criterion-with-blanks-around-its-label")
+        norm = lambda x: x.strip().casefold()  # noqa: E731
+        if any(c in crits and any(d != c and norm(d) == norm(c) for d in crits) for c in named if isinstance(c, str)):
+            t.append("label:condition-on-a-criterion-with-a-namesake-up-to-blanks/case-in-the-matrix")
+        if any(c not in crits and any(norm(d) == norm(c) for d in crits) for c in named if isinstance(c, str)):
+            t.append("label:condition-names-an-absent-respelling-of-a-criterion")
         present = [c for c, _ in run["conds"] if c in crits]
         if len(present) < len(run["conds"]):
             t.append("has-absent-criterion")
